@@ -42,7 +42,7 @@ ASSUMPTIONS = [
 
 def floors(tier):
     return {"rel=B": 1500, "rel=A": 1500, "bf=0": 1000, "bf=1": 1000, "scaled": 1500,
-            "sweep": 5000, "count>0": 300, "kwargs-permuted": 300}
+            "sweep": 5000, "count>0": 300, "kwargs-permuted": 300, "single-attribute": 5000}
 
 
 def has_hp(defn):
@@ -129,12 +129,13 @@ def check(case) -> core.Out:
         return out
     frame = codec.ubx_frame(clsid[0:1], clsid[1:2], payload)
     names = [n for n, _ in G.expect(nodes, bf)]
+    tolerate_refusal = False
     if not bf and count_in_flag(t.defn):
         # confirmed finding (listed under C02: ESF-MEAS SET / SEC-OSNMA GET with
         # parsebitfield=0): the group count lives in a bit flag that the raw
-        # bitfield view does not expose.  Excluded here by construction, counted.
-        out.classes = ["excluded:count-in-bitflag-with-bf=0(C02 finding)"]
-        return out
+        # bitfield view does not expose, so the constructor *refuses* these.  A
+        # refusal is excluded here (counted); building something else is judged.
+        tolerate_refusal = True
     try:
         m = pyubx2.UBXReader.parse(frame, msgmode=mode, parsebitfield=bf)
         reported = dict(C.public_attrs(m))
@@ -183,6 +184,11 @@ def check(case) -> core.Out:
         built = pyubx2.UBXMessage(clsid[0:1], clsid[1:2], mode, parsebitfield=bf, **kw)
         got = built.payload or b""
     except Exception as err:  # noqa
+        if tolerate_refusal and isinstance(err, C.ubx_errors()):
+            out.classes = ["excluded:count-in-bitflag-with-bf=0(C02 finding)"]
+            out.viol = []
+            out.nontrivial = False
+            return out
         # locate the attribute whose value is refused (needed for a precise key)
         culprit = "?"
         needed = {n: kw[n] for n in kw if n in must or n in G.count_names(t.defn)}
@@ -244,6 +250,33 @@ def scaled_leaves(nodes):
 
     walk(nodes)
     return out
+
+
+def c15_find(nodes, name, bf):
+    from vp.props import c15
+
+    return c15.find_field(nodes, name, bf)
+
+
+def set_nonzero(fld):
+    """Give the located field a small non-zero value that every type can hold."""
+    kind, nd, fl = fld
+    if kind == "flag":
+        fl[2] = 1
+    elif kind == "bits":
+        nd[3][0][2] = 1
+    else:
+        t = nd[2]
+        if t == "CH":
+            nd[4] = b"x"
+        elif t[0] in "EILU":
+            nd[4] = 1
+        elif t[0] == "R":
+            nd[4] = 0x3F800000 if codec.tsize(t) == 4 else 0x3FF0000000000000
+        elif t[0] in "XC":
+            nd[4] = b"\x01" * codec.tsize(t)
+        else:
+            nd[4] = [1] * codec.tsize(t)
 
 
 def not_nan_floats(nodes):
@@ -308,6 +341,23 @@ def run_shard(spec, ctx, acc):
                         o.classes = list(o.classes) + ["field-probe"]
                         core.handle(acc, o, case, known)
                     leaf[4] = 0
+            # systematic complement to the drawn subsets: every attribute supplied
+            # *alone* (with the counts / discriminators it needs), both views
+            if not has_hp(t.defn):
+                tmpl = template_for(t)
+                for bf in (1, 0):
+                    for nm, spec in G.expect(tmpl, bf):
+                        if nm in G.count_names(t.defn) or nm in required_kw(t)[0] or nm in required_kw(t)[1]:
+                            continue  # (counts and variant discriminators keep their template value)
+                        one = core.jdec(core.jenc(tmpl))
+                        fld = c15_find(one, nm, bf)
+                        if fld is None:
+                            continue
+                        set_nonzero(fld)
+                        case = dict(base, bf=bf, nodes=one, subset=sorted({nm} | set(G.count_names(t.defn))))
+                        o = check(case)
+                        o.classes = list(o.classes) + ["single-attribute"]
+                        core.handle(acc, o, case, known)
             for bf in (1, 0):
                 if not has_hp(t.defn):
                     sb = st.tuples(inst, st.one_of(st.none(), st.integers(0, 10 ** 6))).map(
